@@ -22,8 +22,8 @@ PHASES = [('cfg_add_start', lambda G: CA.cfg_add_new_start_variable(G, 'S')),
           ('cfg_isolate', CA.cfg_eliminate_terminals)]
 
 
-def big_cfg(rng):
-    nv = rng.randint(23, 30)
+def big_cfg(rng, nv=None):
+    nv = nv or rng.randint(23, 30)
     names = list(gen.UPPER[:min(nv, 26)]) + ['V%d' % i for i in range(max(0, nv - 26))]
     R = []
     for i, A in enumerate(names):
@@ -40,6 +40,8 @@ def cases(ctx):
         G = gen.random_cfg(rng, maxlen=rng.choice([2, 3, 4]))
         if not thorough or ctx.mine(i):
             yield {'G': G}
+    for nv in (24, 25, 26, 27):       # the 26-letter boundary of cfg_fresh_variable
+        yield {'G': big_cfg(rng, nv), 'big': True}
     for i in range(6 if not thorough else 60):
         if not thorough or ctx.mine(i):
             yield {'G': big_cfg(rng), 'big': True}
@@ -85,6 +87,8 @@ def alias_canon(spec):
 def post(name, spec_in, spec_out):
     """phase postconditions evaluated on the implementation's output; returns list of problems"""
     bad = []
+    if spec_out.get('non_string_symbol'):
+        bad.append('a symbol of the result is not a string (e.g. None returned as fresh variable)')
     R = spec_out['R']
     S = spec_out['S']
     newV = set(spec_out['V']) - set(spec_in['V'])
@@ -173,6 +177,8 @@ def judge(ctx, c, answers):
         problems = []
         if not C.is_chomsky():
             problems.append('not in CNF')
+        if out.get('non_string_symbol'):
+            problems.append('a symbol of the result is not a string')
         ok_cnf = all((len(r) == 0 and l == out['S']) or (len(r) == 1 and r[0][0] == 't') or
                      (len(r) == 2 and r[0][0] == 'v' and r[1][0] == 'v' and out['S'] not in (r[0][1], r[1][1]))
                      for l, _, r in out['R'])
